@@ -6,9 +6,10 @@ Everything *declarative* in the source is translated: replace chains, regex char
 and pattern shapes, constants, tables.  The Lean proofs quote these definitions, so a `lake
 build` after this step re-proves the theorems against what the code says now.
 
-Function BODIES of arithmetic / string-formatting code (the `to_ical` methods listed in
-tools/py2lean.py TARGETS) are translated too, by tools/py2lean.py, into Gen/Bodies.lean; theorems
-prove each regenerated body equal to the hand model (lean/ICal/Lemmas/Bodies.lean).
+Function BODIES of arithmetic / string-formatting / decoding code (the functions listed in
+tools/py2lean.py TARGETS: to_ical encoders, from_ical decoders, parser.dquote / q_join) are
+translated too, by tools/py2lean.py, into Gen/Bodies.lean, Gen/BodiesDec.lean, Gen/BodiesParser.lean;
+theorems prove each regenerated body equal to the hand model (lean/ICal/Lemmas/Bodies*.lean).
 
 All other control flow is not translated (it is hand-modelled and tied by the correspondence
 run); for every hand-modelled function an AST fingerprint is written to Gen/fingerprints.json so
@@ -664,11 +665,14 @@ def gen_misc(src):
     return None, fp, {}
 
 
-def gen_bodies(src):
-    """function bodies: tools/py2lean.py (Python subset -> Lean definitions), one `def` per function"""
+def gen_bodies(src, group='enc'):
+    """function bodies: tools/py2lean.py (Python subset -> Lean definitions), one `def` per function.
+    Groups: enc = the to_ical encoders (Bodies.lean), dec = the from_ical decoders (BodiesDec.lean),
+    parser = parser.dquote / q_join (BodiesParser.lean); one generated file each, so that a failure breaks the tie
+    only of the properties whose Lean modules import that file"""
     import py2lean
     try:
-        return py2lean.translate(src)
+        return py2lean.translate(src, group)
     except Exception as e:  # noqa: BLE001
         # py2lean imports this file as the module `extract`; when this file runs as a script its exception
         # class is a different object from ours, so the failure is re-raised as the class main() catches
@@ -677,10 +681,18 @@ def gen_bodies(src):
         raise
 
 
+def gen_bodies_dec(src):
+    return gen_bodies(src, 'dec')
+
+
+def gen_bodies_parser(src):
+    return gen_bodies(src, 'parser')
+
+
 # ---------------------------------------------------------------- driver
 
 GENERATORS = [('Parser.lean', gen_parser), ('Cal.lean', gen_cal), ('Prop.lean', gen_prop), (None, gen_misc),
-              ('Bodies.lean', gen_bodies)]
+              ('Bodies.lean', gen_bodies), ('BodiesDec.lean', gen_bodies_dec), ('BodiesParser.lean', gen_bodies_parser)]
 
 
 def write_if_changed(path, content):
